@@ -19,8 +19,8 @@
 (* A circuit key is <<channel, htlc id>>; channel 0 is hop.Source.          *)
 (* Deliberate deviations of the code are named:                             *)
 (*   TrimDisk(FALSE)  - a failed keystone deletion is NOT rolled back in    *)
-(*                      memory (constant TrimMayFail)                       *)
-(* Caller assumptions (SwitchFaithful) are the guards named A1..A5 below.   *)
+(*                      memory ("TrimFail" \in Relaxed)                      *)
+(* Caller assumptions are the guards named A1..A6 below (CONSTANT Relaxed).  *)
 (***************************************************************************)
 EXTENDS Integers, Sequences, FiniteSets, TLC
 
@@ -32,9 +32,23 @@ CONSTANTS InChans,        \* incoming channel ids (0 = hop.Source)
           MaxOps,         \* bound on API calls
           MaxCrash,       \* bound on crashes
           MaxFail,        \* bound on failing transactions
-          SwitchFaithful, \* callers behave like the switch and its links (A1..A5)
-          ClosePatient,   \* A6: a channel is fully closed only when its circuits' outgoing htlcs are committed
-          TrimMayFail     \* the write of a run-time TrimOpenCircuits may fail
+          Relaxed         \* the assumptions that are NOT made, a subset of
+                          \* {"A1", "A3", "A4", "A5", "A6", "TrimFail"}; {} = switch-faithful
+
+\* The assumptions about callers and environment, each named where it guards an action:
+\*  A1  a caller learns of a circuit only from the Adds answer: no Open/Fail/Delete of a key whose
+\*      commit is in flight
+\*  (A2 is a definition: the memory phase of DeleteCircuits is where a key is forgotten)
+\*  A3  SwitchFaithful proper: a key is not re-committed while its delete is in flight (else H9)
+\*  A4  a link is one goroutine and a circuit belongs to one outgoing link: calls of a link
+\*      (Open, Trim) on one channel do not overlap; no Open/Delete of a circuit that another
+\*      Open/Trim/Delete in flight touches
+\*  A5  a circuit whose outgoing htlc has not reached a commitment is not deleted
+\*  A6  ClosePatient: a channel is not FULLY closed while one of its circuits holds an uncommitted
+\*      keystone, and no keystone is written for a circuit of a fully closed channel (else H10)
+\*  TrimFail  in Relaxed: the transaction of a run-time TrimOpenCircuits may fail (H11)
+Assume(a) == a \notin Relaxed
+SwitchFaithful == Relaxed = {}
 
 Source  == 0
 InKeys  == InChans \X Ids
@@ -138,7 +152,7 @@ CommitMem(t, batch) ==
   \* A3 (SwitchFaithful proper): a key is not re-committed while its delete is in flight -
   \* the switch tears a circuit down only after the response, when the incoming add was
   \* acknowledged in the forwarding package long ago.  Violating it is H9.
-  /\ SwitchFaithful => Range(batch) \cap Deleting = {}
+  /\ Assume("A3") => Range(batch) \cap Deleting = {}
   /\ LET r == CommitScan(batch, 1, [pend |-> pending, a |-> <<>>, d |-> <<>>, f |-> <<>>, af |-> <<>>]) IN
      /\ pending' = r.pend
      /\ IF r.a = <<>>
@@ -198,17 +212,16 @@ OpenCheck(t, ks) ==
   /\ \A j \in DOMAIN ks :
         \* H4: the circuit to be opened has no keystone yet
         /\ \A p \in Pend(ks[j][1]) : p.out = None
-        /\ SwitchFaithful =>
-              \* A1: the caller learns of a circuit only from the Adds answer
-              /\ ks[j][1] \notin Committing
-              \* A4: a link is one goroutine (no Open/Trim of the same channel overlap); a circuit
-              \* belongs to one outgoing link: no Open / Delete while another call of that link
-              \* (Open, Trim) or a Delete that touches the circuit is in flight
-              /\ ks[j][1] \notin Deleting \cup OpeningIn \cup TrimmingIn
-              /\ ~LinkBusy(ks[j][2][1])
-              /\ ~IsClosedChan(ks[j][2][1])
+        \* A1: the caller learns of a circuit only from the Adds answer
+        /\ Assume("A1") => ks[j][1] \notin Committing
+        \* A4: a link is one goroutine (no Open/Trim of the same channel overlap); a circuit
+        \* belongs to one outgoing link: no Open while another call (Open, Trim, Delete) that
+        \* touches the circuit is in flight
+        /\ Assume("A4") => /\ ks[j][1] \notin Deleting \cup OpeningIn \cup TrimmingIn
+                           /\ ~LinkBusy(ks[j][2][1])
+                           /\ ~IsClosedChan(ks[j][2][1])
         \* A6, seen from the other side: no keystone for a circuit of a fully closed channel
-        /\ ClosePatient => ~IsClosedChan(ks[j][1][1])
+        /\ Assume("A6") => ~IsClosedChan(ks[j][1][1])
   /\ LET bad == {j \in DOMAIN ks : OpenedAt(ks[j][2]) # {} \/ ~IsPending(ks[j][1])} IN
      IF bad # {}
      THEN /\ ret' = ErrRet(IF OpenedAt(ks[Min(bad)][2]) # {} THEN "dupks" ELSE "unknown")
@@ -261,7 +274,7 @@ TrimSeq(c, i, ts) == IF \E o \in ts : o[1] = <<c, i>>
 TrimMem(t, c) ==
   /\ Call(t)
   \* the link trims from its channel's NextLocalHtlcIndex when it starts
-  /\ SwitchFaithful => (~LinkBusy(c) /\ ~IsClosedChan(c))
+  /\ Assume("A4") => (~LinkBusy(c) /\ ~IsClosedChan(c))
   /\ LET ts == TrimSet(c, nextIdx[c], opened) IN
      /\ pending' = TrimPending(pending, ts)
      /\ opened' = opened \ ts
@@ -274,10 +287,10 @@ TrimMem(t, c) ==
                  addsCount, respCount, snap, ncrash, nfail>>
   /\ fresh' = FALSE
 
-\* DEVIATION (TrimMayFail): when the deletion fails the error is returned but the keystones
+\* DEVIATION ("TrimFail" \in Relaxed): when the deletion fails the error is returned but the keystones
 \* stay cleared in memory - there is no rollback as in CommitCircuits / DeleteCircuits.
 TrimDisk(t, ok) ==
-  /\ Step(t, "trim", "disk") /\ (ok \/ (MayFail /\ TrimMayFail)) /\ Fails(ok)
+  /\ Step(t, "trim", "disk") /\ (ok \/ (MayFail /\ ~Assume("TrimFail"))) /\ Fails(ok)
   /\ IF ok
      THEN /\ dKeys' = {k \in dKeys : k[1] \notin TrimOuts(t)}
           /\ ret' = OkRet
@@ -307,7 +320,7 @@ Close(out) ==
 Fail(in) ==
   /\ mode = "up" /\ nops < MaxOps /\ nops' = nops + 1
   \* A1: the caller learns of a circuit only from the Adds answer
-  /\ SwitchFaithful => in \notin Committing
+  /\ Assume("A1") => in \notin Committing
   /\ IF ~IsPending(in)
      THEN /\ ret' = ErrRet("unknown") /\ UNCHANGED <<closed, respCount>>
      ELSE IF in \in closed
@@ -324,12 +337,14 @@ Fail(in) ==
 (* delete on disk; restore the memory if the transaction fails.             *)
 DeleteMem(t, keys) ==
   /\ Call(t)
-  /\ SwitchFaithful => \A k \in Range(keys) :
-        \* A1 / A4: not while the circuit's commit, open or trim is in flight
-        /\ k \notin Committing \cup OpeningIn \cup TrimmingIn
+  /\ \A k \in Range(keys) :
+        \* A1 / A4: not while the circuit's commit, or its open or trim, is in flight
+        /\ Assume("A1") => k \notin Committing
+        /\ Assume("A4") => k \notin OpeningIn \cup TrimmingIn
         \* A5: a circuit is torn down after a response; an outgoing htlc that has not reached
         \* a commitment (keystone index >= NextLocalHtlcIndex) cannot have been answered
-        /\ \A p \in Pend(k) : p.out # None /\ ~IsClosedChan(p.out[1]) => p.out[2] < nextIdx[p.out[1]]
+        /\ Assume("A5") => \A p \in Pend(k) :
+               (p.out # None /\ ~IsClosedChan(p.out[1])) => p.out[2] < nextIdx[p.out[1]]
   /\ LET rem == {p \in pending : p.in \in Range(keys)}
          cl  == closed \cap {p.in : p \in rem} IN
      /\ pending' = pending \ rem
@@ -396,7 +411,7 @@ Uncommitted(out) == ~IsClosedChan(out[1]) /\ out[2] >= nextIdx[out[1]]
 CloseChan(c) ==
   /\ mode = "up" /\ c # Source /\ c \notin closedChans
   /\ ~LinkBusy(c)
-  /\ ClosePatient => /\ \A k \in dKeys \cup opened : k[2][1] = c => ~Uncommitted(k[1])
+  /\ Assume("A6") => /\ \A k \in dKeys \cup opened : k[2][1] = c => ~Uncommitted(k[1])
                      /\ \A t \in Threads : \A k \in Range(thr[t].ks) : thr[t].op = "open" => k[1][1] # c
   /\ closedChans' = closedChans \cup {c}
   /\ ret' = NoRet
